@@ -90,7 +90,7 @@ pub fn run(r: &Runner) {
         let g = GenSpec { kinds: &K, profile: Profile { big: true, ..Profile::DEFAULT }, generous_cap: false, cfg_mask: 0x7f, cfg_entry_only: false };
         r.par_random(
             &format!("G1 grammar-derived messages with mutations, backend {}", backend_name(be)),
-            r.amount(500_000, 8_000_000),
+            r.amount(2_000_000, 30_000_000),
             170,
             |u: &mut Choice| {
                 let mut rec = g1_case(u, "total", &g);
@@ -102,7 +102,7 @@ pub fn run(r: &Runner) {
         // G2 class strings and raw bytes
         r.par_random(
             &format!("class-alphabet strings and raw uniform bytes, backend {}", backend_name(be)),
-            r.amount(400_000, 6_000_000),
+            r.amount(1_500_000, 20_000_000),
             120,
             |u: &mut Choice| {
                 let entry = Entry::from_u8(u.below(10) as u8);
